@@ -101,6 +101,17 @@ pub fn derived<V: Clone + serde::Serialize + serde::de::DeserializeOwned>(v: &V,
     }
 }
 
+/// Class of an observation made on a copy / a later stage of a case: the suffix alone when the case has no class of its
+/// own, otherwise the case's class unchanged - the class names the *input* family (e.g. code_bits>32, which the list of
+/// known findings is keyed on), and that does not change when the same input is looked at through a copy.
+pub fn sub_class(base: &str, suffix: &str) -> String {
+    if base.is_empty() {
+        suffix.to_string()
+    } else {
+        base.to_string()
+    }
+}
+
 pub fn h64<T: Hash>(t: &T) -> u64 {
     let mut h = std::collections::hash_map::DefaultHasher::new();
     t.hash(&mut h);
